@@ -1,5 +1,12 @@
 package chk
 
+import (
+	"fmt"
+	"strings"
+
+	"golang.org/x/tools/go/ssa"
+)
+
 func init() { Registry["C04"] = checkC04 }
 
 // C04 — untrusted container input never crashes, hangs or balloons memory (structural part).
@@ -50,6 +57,10 @@ func checkC04(c *Ctx, r *Report) {
 	ruleGASSERT(c, r, scope, 25)
 	ruleNoReaderAliasing(c, r)
 	ruleBoxSizeGuard(c, r)
+	if n := ruleNilMapUpdate(c, r, func(f *ssa.Function) bool { return strings.HasPrefix(SSAFuncName(f), "mp4.") || strings.HasPrefix(SSAFuncName(f), "bits.") }); n < 3 {
+		r.Undecided("G-NILMAP", "scope", "", fmt.Sprintf("only %d map updates found in packages mp4 and bits", n))
+	}
+	requireFixture(r, "G-NILMAP", "nilMapUpdate", func(fc *Ctx, s *Report) { ruleNilMapUpdate(fc, s, nil) })
 	if ruleHeaderMin(c, r) < 2 {
 		r.Undecided("O-HDRMIN", "scope", "", "DecodeHeader and DecodeHeaderSR not both found")
 	}
